@@ -237,3 +237,52 @@ pub fn run_bulky(srv: &Server, out: &mut dyn Write) {
     let _ = o.s.shutdown(Shutdown::Both);
     writeln!(out, "{}", json!({"e": "bulky", "alive": how == "done", "fresh": fresh, "done": done, "waited_ms": waited})).unwrap();
 }
+
+
+/// Truncated body followed by silence (C18), as many times as the server has slots: every faulty client writes a complete
+/// quiet store and the beginning of another request in ONE write and then says nothing more, keeping its socket open.  The
+/// complete request is executed, the torn one is not, and once the receive timeout has passed the server serves others
+/// again (the silent connections are ended like any idle one).  `limit` = connection limit, `timeout` = receive timeout (s).
+pub fn run_silent_hogs(port: u16, limit: usize, timeout: u64, out: &mut dyn Write) {
+    use std::io::Write as W;
+    let mut hogs: Vec<Client> = Vec::new();
+    for i in 0..limit {
+        if let Ok(mut c) = Client::connect(port) {
+            let mut b = Frame::consistent(0x11, &[0u8; 8], format!("hogdone{}", i).as_bytes(), b"yes", 2, 0).bytes();
+            let torn = Frame::consistent(0x01, &[0u8; 8], format!("hogtorn{}", i).as_bytes(), &[b'T'; 40], 3, 0).bytes();
+            b.extend_from_slice(&torn[..torn.len() - 5]);
+            let _ = c.s.write_all(&b);
+            hogs.push(c);
+        }
+    }
+    // the silent clients hold every slot; after the timeout (plus a margin) they must be gone
+    std::thread::sleep(Duration::from_millis(timeout * 1000 + 1500));
+    let t0 = std::time::Instant::now();
+    let mut served = false;
+    let mut done = "none".to_string();
+    let mut torn = "none".to_string();
+    if let Ok(mut o) = Client::connect(port) {
+        let mut b = Frame::consistent(0x00, &[], b"hogdone0", &[], 7001, 0).bytes();
+        b.extend_from_slice(&Frame::consistent(0x00, &[], b"hogtorn0", &[], 7002, 0).bytes());
+        b.extend_from_slice(&Frame::consistent(0x0a, &[], &[], &[], 7003, 0).bytes());
+        let _ = o.s.write_all(&b);
+        let (resp, how) = o.read_until(Duration::from_millis(6000), &|x| tcp::has_opaque(x, 7003));
+        served = how == "done";
+        let rs = parse_responses(&resp);
+        let val = |q: &str| rs.iter().find(|r| r["opq"].as_str() == Some(q)).map(|r| if r["st"].as_u64() == Some(0) { r["v"].as_str().unwrap_or("").to_string() } else { "miss".to_string() }).unwrap_or("none".to_string());
+        done = val("7001");
+        torn = val("7002");
+        let _ = o.s.shutdown(Shutdown::Both);
+    }
+    let waited = t0.elapsed().as_millis() as u64;
+    // have the silent connections been closed by the server?
+    let mut closed = 0;
+    for h in hogs.iter_mut() {
+        let (_b, how) = h.read_until(Duration::from_millis(300), &|_| false);
+        if how == "eof" || how == "reset" {
+            closed += 1;
+        }
+        let _ = h.s.shutdown(Shutdown::Both);
+    }
+    writeln!(out, "{}", json!({"e": "hogs", "n": limit, "served": served, "done": done, "torn": torn, "closed": closed, "waited_ms": waited})).unwrap();
+}
